@@ -312,6 +312,10 @@ func main() {
 		base = uint64(v)
 	}
 
+	if prop == "build" { // debugging aid: build the worker binary into .build/dbg and keep it
+		fmt.Println(build(filepath.Join(verifDir, ".build", "dbg")))
+		return
+	}
 	dir := filepath.Join(verifDir, ".build", fmt.Sprintf("%s-%d", prop, os.Getpid()))
 	defer os.RemoveAll(dir)
 	code := func() int {
